@@ -17,6 +17,7 @@ pub fn run_all(text: &str, ctx: &Ctx, log: &mut BTreeMap<&'static str, usize>) -
         ("R6", r6),
         ("R7", r7),
         ("R3", r3),
+        ("R12", r12),
         ("R11", r11),
         ("R5", r5),
         ("R4", r4),
@@ -841,3 +842,44 @@ fn r10(src: &str, f: &syn::File, c: &Ctx, e: &mut Vec<Edit>) {
 
 #[allow(dead_code)]
 fn unused(_: &dyn Spanned) {}
+
+// ---------------------------------------------------------------------------------------------- R12
+// `RECV.retain(|p| BODY);` (statement)  ->  the definition of Vec::retain as an explicit, order-preserving rebuild:
+//   { let old_v_ = std::mem::replace(&mut RECV, Vec::new());
+//     for p__ in old_v_ { let keep_ = { let p = &p__; BODY }; if keep_ { RECV.push(p__); } } }
+struct R12<'a> {
+    src: &'a str,
+    edits: &'a mut Vec<Edit>,
+}
+impl<'a, 'ast> Visit<'ast> for R12<'a> {
+    fn visit_stmt(&mut self, st: &'ast Stmt) {
+        if let Stmt::Expr(Expr::MethodCall(m), Some(_)) = st {
+            if m.method == "retain" && m.args.len() == 1 {
+                if let Expr::Closure(c) = &m.args[0] {
+                    if c.inputs.len() == 1 {
+                        if let Pat::Ident(pi) = &c.inputs[0] {
+                            let recv = txt(self.src, &*m.receiver);
+                            let body = txt(self.src, &*c.body);
+                            let p = pi.ident.to_string();
+                            let (s, e) = nr(m);
+                            self.edits.push(Edit {
+                                start: s,
+                                end: e,
+                                text: format!(
+                                    "{{ let old_v_ = std::mem::replace(&mut {recv}, Vec::new()); for {p}__ in old_v_ {{ let keep_ = {{ let {p} = &{p}__; {body} }}; if keep_ {{ {recv}.push({p}__); }} }} }}",
+                                    recv = recv, p = p, body = body
+                                ),
+                                rule: "R12",
+                            });
+                            return;
+                        }
+                    }
+                }
+            }
+        }
+        visit::visit_stmt(self, st);
+    }
+}
+fn r12(src: &str, f: &syn::File, _c: &Ctx, e: &mut Vec<Edit>) {
+    R12 { src, edits: e }.visit_file(f);
+}
